@@ -2751,10 +2751,12 @@ func deserialize_vector_CompiledInstruction(deserializer serde.Deserializer) ([]
 	if err != nil {
 		return nil, err
 	}
-	obj := make([]CompiledInstruction, length)
-	for i := range obj {
+	// NOTE: the length comes from the input. The slice grows as elements are actually decoded
+	// (each element consumes input) instead of allocating `length` elements up front.
+	obj := make([]CompiledInstruction, 0, minVectorCapacity(length))
+	for i := uint64(0); i < length; i++ {
 		if val, err := DeserializeCompiledInstruction(deserializer); err == nil {
-			obj[i] = val
+			obj = append(obj, val)
 		} else {
 			return nil, err
 		}
@@ -2779,10 +2781,12 @@ func deserialize_vector_InnerInstructions(deserializer serde.Deserializer) ([]In
 	if err != nil {
 		return nil, err
 	}
-	obj := make([]InnerInstructions, length)
-	for i := range obj {
+	// NOTE: the length comes from the input. The slice grows as elements are actually decoded
+	// (each element consumes input) instead of allocating `length` elements up front.
+	obj := make([]InnerInstructions, 0, minVectorCapacity(length))
+	for i := uint64(0); i < length; i++ {
 		if val, err := DeserializeInnerInstructions(deserializer); err == nil {
-			obj[i] = val
+			obj = append(obj, val)
 		} else {
 			return nil, err
 		}
@@ -2807,13 +2811,24 @@ func deserialize_vector_u64(deserializer serde.Deserializer) ([]uint64, error) {
 	if err != nil {
 		return nil, err
 	}
-	obj := make([]uint64, length)
-	for i := range obj {
+	// NOTE: the length comes from the input. The slice grows as elements are actually decoded
+	// (each element consumes input) instead of allocating `length` elements up front.
+	obj := make([]uint64, 0, minVectorCapacity(length))
+	for i := uint64(0); i < length; i++ {
 		if val, err := deserializer.DeserializeU64(); err == nil {
-			obj[i] = val
+			obj = append(obj, val)
 		} else {
 			return nil, err
 		}
 	}
 	return obj, nil
+}
+
+// minVectorCapacity bounds the capacity reserved for a vector before its elements are decoded.
+func minVectorCapacity(length uint64) uint64 {
+	const maxUpfront = 16
+	if length > maxUpfront {
+		return maxUpfront
+	}
+	return length
 }
